@@ -59,6 +59,36 @@ func init() {
 		}
 		return out, "round-trips", true
 	}
+	// the same for a JSON document
+	replayers["climj"] = func(rn *Runner, rp *Replay) (string, string, bool) {
+		dir, _ := os.MkdirTemp(".", "climj")
+		defer os.RemoveAll(dir)
+		os.WriteFile(filepath.Join(dir, "w.json"), []byte(rp.Input), 0o644)
+		out, _, _ := runCli(dir, []string{"-x", rp.Text, "-m", "-n", "w.json"}, "")
+		c, err := xsel.ReadJson(strings.NewReader(rp.Input))
+		if err != nil {
+			return "unparsable witness", "", true
+		}
+		g, _ := buildCached(rp.Text)
+		res, _ := xsel.Exec(c, g)
+		ns, _ := res.(xsel.NodeSet)
+		lines := strings.Split(strings.TrimSuffix(out, "\n"), "\n")
+		if len(ns) == 0 || len(lines) != len(ns) {
+			return out, fmt.Sprint(len(ns)) + " records", false
+		}
+		for i, n := range ns {
+			var s1, s2 strings.Builder
+			mShape(n, &s1)
+			back, perr := xsel.ReadXml(strings.NewReader(lines[i]))
+			if perr == nil {
+				shapeOf(back, &s2)
+			}
+			if perr != nil || normShape(s1.String()) != normShape(s2.String()) {
+				return "record " + lines[i] + " parses back to " + s2.String(), s1.String(), false
+			}
+		}
+		return out, "round-trips", true
+	}
 	replayers["cli"] = func(rn *Runner, rp *Replay) (string, string, bool) {
 		rn.Prop, rn.maxMis, rn.Tier = rp.Property, 1000, "quick"
 		families[rp.Property](rn)
@@ -275,6 +305,36 @@ func mShape(c store.Cursor, b *strings.Builder) {
 	default:
 		shapeOf(c, b)
 	}
+}
+
+// hasNonXmlName: an element or attribute in the subtree whose name is not an XML name (the JSON mapping's
+// #obj / #arr, JSON keys such as "1" or "a b"): its serialisation is not well-formed XML
+func hasNonXmlName(c store.Cursor) bool {
+	bad := func(n string) bool {
+		for i, r := range n {
+			letter := r == '_' || r >= 'a' && r <= 'z' || r >= 'A' && r <= 'Z' || r >= 0xC0
+			if !(letter || i > 0 && (r >= '0' && r <= '9' || r == '-' || r == '.' || r == 0xB7)) {
+				return true
+			}
+		}
+		return n == ""
+	}
+	if e, ok := c.Node().(node.Element); ok {
+		if bad(e.Local()) {
+			return true
+		}
+		for _, a := range c.Attributes() {
+			if bad(a.Node().(node.Attribute).Local()) {
+				return true
+			}
+		}
+	}
+	for _, k := range c.Children() {
+		if hasNonXmlName(k) {
+			return true
+		}
+	}
+	return false
 }
 
 // piFormEncodable: encoding/xml refuses a processing instruction whose target is not an XML name or whose data contains "?>"
@@ -596,6 +656,14 @@ func famC20(rn *Runner) {
 						rn.St.Known = map[string]int{}
 					}
 					rn.St.Known["C20-newline-in-comment-or-pi"]++
+					continue
+				}
+				if (perr != nil || normShape(s1.String()) != normShape(s2.String())) && hasNonXmlName(c) {
+					// open known finding C20-m-names-not-xml: recognised by its matcher, nothing else
+					if rn.St.Known == nil {
+						rn.St.Known = map[string]int{}
+					}
+					rn.St.Known["C20-m-names-not-xml"]++
 					continue
 				}
 				if perr != nil || normShape(s1.String()) != normShape(s2.String()) {
